@@ -411,6 +411,45 @@ func tarIn(c *harness.Ctx, rng interface{ Intn(int) int }, src, dst, dir string,
 		return true
 	}
 	raw, _ := os.ReadFile(tarFile)
+	// variants of the stream that other producers write: a pax global header in front (every `git archive` tarball has
+	// one), and a member appended later to a directory that came earlier in the stream (`tar -r`)
+	variant := []string{"plain", "plain", "global-header", "appended-member"}[rng.Intn(4)]
+	switch variant {
+	case "global-header":
+		var gb bytes.Buffer
+		tw := tar.NewWriter(&gb)
+		tw.WriteHeader(&tar.Header{Typeflag: tar.TypeXGlobalHeader, Name: "pax_global_header", PAXRecords: map[string]string{"comment": "0123456789abcdef0123456789abcdef01234567"}})
+		tw.Flush()
+		raw = append(gb.Bytes(), raw...)
+	case "appended-member":
+		firstDir := ""
+		for p, sn := range srcSnap {
+			if sn.Type == "dir" && p != "." && !strings.Contains(p, "/") && (firstDir == "" || p < firstDir) {
+				firstDir = p
+			}
+		}
+		var last string
+		for p := range srcSnap {
+			if !strings.Contains(p, "/") && p > last {
+				last = p
+			}
+		}
+		if firstDir == "" || firstDir == last || len(firstDir) > 80 || strings.ContainsAny(firstDir, "\x00") {
+			variant = "plain"
+			break
+		}
+		end := len(raw)
+		for end >= 512 && bytes.Equal(raw[end-512:end], make([]byte, 512)) {
+			end -= 512
+		}
+		var ab bytes.Buffer
+		tw := tar.NewWriter(&ab)
+		tw.WriteHeader(&tar.Header{Typeflag: tar.TypeReg, Name: "./" + firstDir + "/appended-later", Mode: 0644, Size: 5, ModTime: time.Unix(1500000000, 0), Format: tar.FormatPAX})
+		tw.Write([]byte("later"))
+		tw.Close()
+		raw = append(raw[:end:end], ab.Bytes()...)
+	}
+	producer += "+" + variant
 	// ground truth from the stream
 	want := map[string]treegen.Snap{}
 	tr := tar.NewReader(bytes.NewReader(raw))
@@ -457,6 +496,12 @@ func tarIn(c *harness.Ctx, rng interface{ Intn(int) int }, src, dst, dir string,
 	}
 	var cat bytes.Buffer
 	if err := desync.Tar(context.Background(), &cat, desync.NewTarReader(bytes.NewReader(raw), desync.TarReaderOptions{})); err != nil {
+		if variant == "appended-member" {
+			// members that do not follow their directory cannot be represented in one pass: refusing them is fine,
+			// dropping them silently is not
+			c.Count("tar_streams_refused_for_member_order", 1)
+			return true
+		}
 		c.Violation("tar-from-stream-failed", "%s stream: %v", producer, err)
 		return false
 	}
